@@ -75,6 +75,7 @@ class TableEcu:
         self.pending = 0.0         # probability that a reply is preceded by ResponsePending frames
         self.pending_ks = [1, 1, 2, 5]
         self.busy = 0.0            # probability of busyRepeatRequest instead of the reply
+        self.busy_sids = set()     # implemented services that answer every probe with busyRepeatRequest (a busy, but present, service)
         self.reset_mode = "ok"     # ok | neg | silent | garbage | stay
         self.reset_levels = {1}
         self.boot = []             # what the ECU does with the first requests after a positive reset: 't' deaf | 'i' garbage
@@ -82,6 +83,7 @@ class TableEcu:
         self.fake_reentry = False  # a refused re-entry is answered positively although the session is not entered
         self.f186_then = None      # (n, mode): after n answered read-backs the read-back behaves like `mode`
         self.f186_nondefault = None  # read-back behaviour outside the default session (None: as in the default session)
+        self.f186_unreadable = {}    # session -> NRC: sessions in which the session identifier cannot be read (support differs per session)
         self.readbacks = 0
         self.log = []              # (session at receipt, pdu, final reply)
         self.silent_pings = 0
@@ -134,6 +136,8 @@ class TableEcu:
             self.readbacks += 1
             if self.f186_then is not None and self.readbacks > self.f186_then[0]:
                 self.f186 = self.f186_then[1]
+            if s in self.f186_unreadable:
+                return bytes([0x7F, 0x22, self.f186_unreadable[s]])
             mode = self.f186_nondefault if (s != 1 and self.f186_nondefault) else self.f186
             if mode == "garbage":
                 return bytes([0x7F, 0x23, 0x31])
@@ -209,6 +213,8 @@ class TableEcu:
             if r < 0.16:
                 return bytes([0x7F, pdu[0], self.rng.choice([0x11, 0x7F, 0x13, 0x22, 0x31, 0x12, 0x33])])
         if self.busy and self.rng.random() < self.busy:
+            return bytes([0x7F, pdu[0], 0x21])
+        if pdu[0] in self.busy_sids and pdu[0] not in (0x10, 0x11, 0x22, 0x3E) and pdu[0] in self.svc.get(self.session, {}):
             return bytes([0x7F, pdu[0], 0x21])
         return self.answer(pdu)
 
@@ -546,6 +552,19 @@ def run(ctx):
                 ecu.reset_mode = "ok" if forced == 3 else rng.choice(["silent", "neg"])
                 ecu.boot = rng.choice([["t"], ["t"] * 3, ["i"] * 2, ["t", "i"]]) if forced == 3 else []
         label = _behaviour(rng, ecu, mode)
+        if check and sessions is not None and mode in ("drop-sid", "drop-count") and ecu.f186 == "ok" and rng.random() < 0.5:
+            # the session identifier is readable in some sessions only: a check that cannot read it in one session says nothing about the next
+            nd = [x for x in ecu.sessions if x != 1]
+            if len(nd) >= 2:
+                for x in rng.sample(nd, rng.randint(1, len(nd) - 1)):
+                    ecu.f186_unreadable[x] = rng.choice([0x31, 0x11, 0x7F, 0x12])
+                ctx.kind("svc:ecu-session-identifier-readable-in-some-sessions-only")
+        if rng.random() < 0.3:
+            # one to three implemented services are busy for the whole scan: still answers that are neither not-supported nor length errors
+            impl = sorted({sid for d in ecu.svc.values() for sid in d})
+            if impl:
+                ecu.busy_sids = set(rng.sample(impl, min(len(impl), rng.randint(1, 3))))
+                ctx.kind("svc:ecu-with-always-busy-services")
         if forced == 6:
             # the read-back works in the default session only: the exception paths inside the re-entry loop
             ecu.f186_nondefault = rng.choice(["silent", "nrc31", "nrc22", "garbage"])
@@ -595,6 +614,8 @@ def run(ctx):
             def twin():
                 e2 = TableEcu(_random.Random(ecu_seed), wild=False, flat=flat, n_sessions=n_sess)
                 e2.f186 = ecu.f186
+                e2.busy_sids = set(ecu.busy_sids)
+                e2.f186_unreadable = dict(ecu.f186_unreadable)
                 return e2
             base = sorted(sc.result)
             if ecu.flat and label == "plain":
@@ -1011,6 +1032,8 @@ def _svc_checked_spec(ctx, ecu, sessions, skip, check, rid, r, head):
     # drops happen only in answer to requests of the listed service ids, and the read-back itself is not one of them
     trigger_free = ecu.drop_after is None and 0x22 not in ecu.drop_sids
     for (key, sid) in sorted(got):
+        if key in ecu.f186_unreadable:
+            continue   # no honest read-back in that session: nothing is promised for it
         if trigger_free and sid not in ecu.drop_sids and not ecu.supports(key, sid):
             ctx.disagree("svc:checked-scan-reports-unsupported", f"--check-session is on, the read-back is honest, probes of {sid:#x} do not disturb the session, "
                          f"yet it is reported under session {key:#x} where the ECU does not implement it",
@@ -1027,7 +1050,7 @@ def _svc_checked_spec(ctx, ecu, sessions, skip, check, rid, r, head):
         if idx in main_dsc:
             key = main_dsc[idx]
         elif key is not None and _is_probe(pdu) and len(pdu) == 2 and pdu[0] != 0x3E and not (pdu[0] == 0x10):
-            if before != key and (prev is None or prev[1] == b"\x22\xf1\x86"):
+            if before != key and key not in ecu.f186_unreadable and (prev is None or prev[1] == b"\x22\xf1\x86"):
                 ctx.disagree("svc:first-probe-outside-claimed-session", f"--check-session is on, yet the first probe `{pdu.hex()}` of the scan of session {key:#x} "
                              f"reached the ECU in session {before:#x}",
                              {"cfg": head, "session": key, "request": pdu.hex()}, impl=before, model=key, spec_violated=True,
